@@ -2,6 +2,7 @@
   More operations of the driver: Sqrt, setters, conversions, raw mantissa access, Context.
 -/
 import Driver.Ops
+import DecimalModel.SqrtLit
 
 namespace Driver
 open Decimal
@@ -32,9 +33,22 @@ def sqrtOp (env : Array Dec) (zs xs : String) : Step :=
     let p := if z.prec == 0 then x.prec else z.prec
     let r := Spec.sqrtSV z.mode p (Spec.ofDec x)
     let perfect := match r with | some r => r.acc == 0 | none => false
+    -- third voice: the LITERAL model of sqrtInverse (Newton iteration + the two correction loops + midpoint),
+    -- run from a 17-digit seed; proved equivalent to `sqrt` whenever it returns (C05Lit.sqrtLit_equiv_sqrt)
+    -- (special operands never reach sqrtInverse; their stale exponents must not be fed to the seed computation)
+    let lit := if x.form == .finite && !x.neg then sqrtLit 400 (sqrtSeedFor z x (xi == zi)) z x (xi == zi) else some (z', oc)
+    let litSpec : Outcome → String → Array Dec → Option String := fun o _ genv =>
+      match lit with
+      | none => some "literal model of sqrtInverse ran out of fuel (400 passes)"
+      | some (zl, ol) =>
+        if !(sameOutcomeW ol o) then some "literal sqrt model: outcome differs" else
+        if o != .ok then none else
+        match genv[zi]? with
+        | some g => if sameState zl g then none else some s!"literal sqrt model: want {stateToString zl} got {stateToString g}"
+        | none => some "no receiver"
     { env := env.set! zi z', outcome := oc,
       -- after a NaN the receiver is only required to be valid; its precision prologue already ran
-      spec := andSpec (expectRecvValue zi r p z.mode) (andSpec (frameOk env [zi]) canonicalAll),
+      spec := andSpec (expectRecvValue zi r p z.mode) (andSpec litSpec (andSpec (frameOk env [zi]) canonicalAll)),
       tags := "sqrt" :: resTags r [x] ++ aliasTags [zi, xi] ++ (if perfect then ["perfect-square"] else []) }
   | _, _ => badStep env "sqrt vars"
 
